@@ -733,6 +733,29 @@ func ruleC12Assoc(w *World, r *Report, h, ies *ssa.Function) {
 				r.bad("R12.6", hn, "Cause IE built by ie.NewCause(const)", w.Pos(st.Pos()), "cause is "+symOf(st.Val).String())
 				return
 			}
+			// the cause may be chosen first and stored once — `cause := rejected; if connected { cause = accepted };
+			// res.Cause = NewCause(cause)` —: a φ of constants, each of which is judged where it flows in (the
+			// edge into the φ is the isConnected() edge itself, or is reached over one only)
+			if phi, isPhi := c.Call.Args[0].(*ssa.Phi); isPhi {
+				for e, in := range phi.Edges {
+					k, isK := constInt(in)
+					from := phi.Block().Preds[e]
+					flowsUnder := func(want bool) bool {
+						return connEdge(want)(from, phi.Block()) || onlyVia(h, from.Instrs[len(from.Instrs)-1], connEdge(want))
+					}
+					switch {
+					case isK && k == accepted:
+						nAcc++
+						r.check(flowsUnder(true), "R12.6", hn, "cause accepted only when the datapath is connected", w.Pos(st.Pos()), "dominated by isConnected() == true", "association accepted although the datapath is not connected")
+					case isK && k == rejected:
+						nRej++
+						r.check(flowsUnder(false), "R12.6", hn, "cause rejected only when the datapath is down", w.Pos(st.Pos()), "dominated by isConnected() == false", "association rejected although the datapath is connected")
+					default:
+						r.bad("R12.6", hn, "association cause is accepted or rejected", w.Pos(st.Pos()), "cause "+symOf(in).String())
+					}
+				}
+				return
+			}
 			k, _ := constInt(c.Call.Args[0])
 			switch k {
 			case accepted:
